@@ -164,6 +164,9 @@ def step (xml : Bool) (st : RSt) (c : Char) : RSt :=
   | .attrVal =>
       if c == '"' then { st with mode := .tagSpace, attrs := (st.aname, some st.aval) :: st.attrs, aval := [] }
       else if c == '&' then { st with mode := .attrValEnt, ebuf := [] }
+      else if xml && (c == '\n' || c == '\t' || c == '\r') then
+        -- XML 1.0 section 3.3.3: attribute-value normalisation
+        { st with aval := st.aval ++ [' '] }
       else { st with aval := st.aval ++ [c] }
   | .attrValEnt =>
       if c == ';' then
@@ -362,8 +365,18 @@ def xmlView : List Str → List Tok → Option (List XTok)
       | some (n, p, q) => (xmlView scope rest).map (fun r => .doctype n p q :: r)
       | none => none
 
+/-- XML 1.0 section 2.11: line ends are normalised to LF before parsing -/
+def normEolGo : Bool → Str → Str
+  | _, [] => []
+  | afterCr, c :: cs =>
+      if c == '\r' then '\n' :: normEolGo true cs
+      else if c == '\n' && afterCr then normEolGo false cs
+      else c :: normEolGo false cs
+
+def normEol (s : Str) : Str := normEolGo false s
+
 /-- what expat (namespace processing on) delivers for serializer output -/
 def readXml (s : Str) : Option (List XTok) :=
-  (tokens true s).bind (xmlView [])
+  (tokens true (normEol s)).bind (xmlView [])
 
 end Genshi.Reader
